@@ -167,6 +167,10 @@ def _history(rng, rec, s, members, core_attr):
     options = ["own-size", "radius"] if core_attr else ["own-size", "centroid"]
     if core is not None:
         options += ["core-size", "core-size2", "core-centroid"]
+    if core_attr == "polyhedron" or (core_attr is None and hasattr(type(s), "diagonalize_inertia")):
+        # turning the solid into its principal frame (about the origin: a solid away from the origin swings round) and handing it
+        # to hoomd are public operations like any setter; often straight after a move that took the solid off the origin
+        options += ["move-away-then-diagonalize", "diagonalize", "to_hoomd"]
     for _ in range(int(rng.integers(1, 3))):
         op = options[int(rng.integers(len(options)))]
         f = float(np.exp(rng.uniform(-1.0, 1.0)))
@@ -186,6 +190,14 @@ def _history(rng, rec, s, members, core_attr):
                     core.centroid = np.asarray(core.centroid, float) + L * rng.uniform(-2, 2, size=3) * (1 if core_attr == "polyhedron" else 0)
                 elif op == "centroid":
                     s.centroid = np.asarray(s.centroid, float) + L * rng.uniform(-2, 2, size=3)
+                elif op in ("move-away-then-diagonalize", "diagonalize", "to_hoomd"):
+                    body = core if core is not None else s
+                    if op == "move-away-then-diagonalize":
+                        body.centroid = np.asarray(body.centroid, float) + L * rng.uniform(1.5, 4, size=3) * rng.choice([-1, 1], size=3)
+                    if op == "to_hoomd":
+                        (s if hasattr(type(s), "to_hoomd") else body).to_hoomd()
+                    else:
+                        body.diagonalize_inertia()
             steps.append(op)
         except Exception as e:
             steps.append(f"{op}:refused-{type(e).__name__}")
